@@ -44,14 +44,14 @@
  "tier": "quick",
  "harness": "h_request_fsck",
  "includes": ["misc", "lib/support"],
- "static_keep": ["/repo/misc/tune2fs.c:request_fsck_afterwards::1::requested", "/repo/misc/tune2fs.c:request_dir_fsck_afterwards::1::requested",
-                 "/tmp/wt_tune/misc/tune2fs.c:request_fsck_afterwards::1::requested", "/tmp/wt_tune/misc/tune2fs.c:request_dir_fsck_afterwards::1::requested"],
+ "static_keep": ["{REPO}/misc/tune2fs.c:request_fsck_afterwards::1::requested", "{REPO}/misc/tune2fs.c:request_dir_fsck_afterwards::1::requested",
+                 "{REPO}/misc/tune2fs.c:request_fsck_afterwards::1::requested", "{REPO}/misc/tune2fs.c:request_dir_fsck_afterwards::1::requested"],
  "unwind": 6,
  "cbmc_flags": ["--object-bits", "12"],
  "unwind_reason": "loop-free; the bound serves the DFCC library loops",
  "functions": ["misc/tune2fs.c:request_fsck_afterwards", "misc/tune2fs.c:request_dir_fsck_afterwards"],
  "assumes": [
-  "the function-local statics `requested` start at their initialiser 0 (program start; kept via static_keep, which for function-local statics needs the FILE-QUALIFIED name '<tree>/misc/tune2fs.c:<function>::1::requested': the unit is tied to the trees /repo and /tmp/wt_tune; on any other tree the statics are arbitrary and F1 fails) — nothing else in the program can reach them",
+  "the function-local statics `requested` start at their initialiser 0 (program start; kept via static_keep, which for function-local statics needs the FILE-QUALIFIED name '<tree>/misc/tune2fs.c:<function>::1::requested': the driver substitutes {REPO} by the tree under check) — nothing else in the program can reach them",
   "between the calls the harness lets the superblock change arbitrarily EXCEPT that EXT2_VALID_FS is not set again (unit tune_resize_inode_protocol shows the one place in tune2fs.c that does set it)",
   "superblock content, mount_flags arbitrary; fsck_requested < INT_MAX - 2"
  ],
